@@ -2,10 +2,14 @@ package sim
 
 import (
 	"errors"
+	"fmt"
+	"github.com/syndtr/goleveldb/leveldb"
+	"reflect"
 	"runtime"
 	"strings"
 	"sync"
 	"sync/atomic"
+	"unsafe"
 
 	mwdb "massnet.org/mass-wallet/masswallet/db"
 )
@@ -425,3 +429,23 @@ func (e *errIter) Seek([]byte) bool { return false }
 func (e *errIter) Error() error     { return e.err }
 func (e *errIter) Key() []byte      { return nil }
 func (e *errIter) Value() []byte    { return nil }
+
+// MakeReadOnly puts the LevelDB store under the wallet database into read-only mode (goleveldb
+// SetReadOnly): from now on every real batch write fails inside the wallet's own database layer -
+// unlike a hook fault, which fails the call before it reaches that layer. The handle is the unexported
+// field ldb.LevelDB.ldb.
+func (d *WDB) MakeReadOnly() error {
+	v := reflect.ValueOf(d.Inner)
+	if v.Kind() != reflect.Ptr || v.Elem().Kind() != reflect.Struct {
+		return fmt.Errorf("wallet database is a %T", d.Inner)
+	}
+	f := v.Elem().FieldByName("ldb")
+	if !f.IsValid() || f.Kind() != reflect.Ptr {
+		return fmt.Errorf("no LevelDB handle in %T", d.Inner)
+	}
+	h, ok := reflect.NewAt(f.Type(), unsafe.Pointer(f.UnsafeAddr())).Elem().Interface().(*leveldb.DB)
+	if !ok || h == nil {
+		return fmt.Errorf("unexpected handle type %s", f.Type())
+	}
+	return h.SetReadOnly()
+}
